@@ -24,7 +24,7 @@ import (
 // ---------------------------------------------------------------------------
 
 type c15Entry struct {
-	Kind    string `json:"kind"` // ref | ann | prop
+	Kind    string `json:"kind"` // ref | reref (records the ref's current state again: same target as its previous entry) | ann | prop
 	Ref     string `json:"ref,omitempty"`
 	Targets []int  `json:"targets,omitempty"` // ann: indices into (shared ++ own suffix so far)
 	Skip    bool   `json:"skip,omitempty"`
@@ -44,13 +44,20 @@ func genC15Suffix(rt *rapid.T, label string, nShared, maxLen int, refs []string)
 	n := rapid.IntRange(0, maxLen).Draw(rt, label+"n")
 	var out []c15Entry
 	for i := 0; i < n; i++ {
-		kind := rapid.SampledFrom([]string{"ref", "ref", "ref", "ann", "prop"}).Draw(rt, label+"kind")
-		if nShared+len(out) == 0 && kind == "ann" {
+		kind := rapid.SampledFrom([]string{"ref", "ref", "ref", "reref", "ann", "ann", "annpair", "prop"}).Draw(rt, label+"kind")
+		if nShared+len(out) == 0 && (kind == "ann" || kind == "annpair") {
 			kind = "ref"
+		}
+		if kind == "annpair" {
+			// a revocation followed by a plain note on the same entry
+			tgt := rapid.IntRange(0, nShared+len(out)-1).Draw(rt, label+"pt")
+			out = append(out, c15Entry{Kind: "ann", Targets: []int{tgt}, Skip: true}, c15Entry{Kind: "ann", Targets: []int{tgt}, Skip: false})
+			i++
+			continue
 		}
 		e := c15Entry{Kind: kind}
 		switch kind {
-		case "ref", "prop":
+		case "ref", "prop", "reref":
 			e.Ref = rapid.SampledFrom(refs).Draw(rt, label+"ref")
 		case "ann":
 			k := rapid.IntRange(1, 2).Draw(rt, label+"nt")
@@ -98,6 +105,21 @@ type c15Side struct {
 }
 
 func (sd *c15Side) record(e c15Entry) error {
+	if e.Kind == "reref" {
+		if cur, ok := sd.tips[e.Ref]; ok {
+			// the same state is recorded again (e.g. after its entry was revoked)
+			if err := rsl.NewReferenceEntry(e.Ref, cur).Commit(sd.g, false); err != nil {
+				return err
+			}
+			tip, err := sd.g.GetReference(rsl.Ref)
+			if err != nil {
+				return err
+			}
+			sd.ids = append(sd.ids, tip.String())
+			return nil
+		}
+		e.Kind = "ref" // nothing recorded for this ref yet: an ordinary first entry
+	}
 	switch e.Kind {
 	case "ref", "prop":
 		*sd.counter++
@@ -249,7 +271,7 @@ func runC15(t *testing.T, s *kit.Session, c c15Case) *kit.Failure {
 	touched := func(suffix []c15Entry) map[string]bool {
 		m := map[string]bool{}
 		for _, e := range suffix {
-			if e.Kind == "ref" || e.Kind == "prop" {
+			if e.Kind == "ref" || e.Kind == "prop" || e.Kind == "reref" {
 				m[e.Ref] = true
 			}
 		}
@@ -582,6 +604,6 @@ func TestC15(t *testing.T) {
 		kit.DoReplay(s, t, rf, run)
 		return
 	}
-	s.SetRule("rapid on real repositories (a bare remote and a local repository with it as 'origin'): a shared log prefix of 1-3 entries, local-only and remote-only suffixes of 0-4 entries each {reference entries on new commits, annotations (skip or not) naming shared or own-suffix entries, propagation entries} over disjoint or overlapping refs, optionally an unrecorded extra local commit on some ref (local ahead / diverged), then ReconcileLocalRSLWithRemote, Sync, Sync with overwrite, or RecordRSLEntryForReference with the remote (sync, record, sync). Oracle (reconcile): conflict => refused and nothing changed; otherwise local log = remote log ++ the local-only entries in order with the same (kind, ref, target, upstream fields) and annotations naming the images of what they named; no ref other than the log moves. Oracle (sync): a refused sync changes nothing; a local ref moves only to the target of its latest unskipped remote entry, only if the remote recorded something new for it, and without overwrite only by fast-forward; a local log ahead is published together with the refs its unskipped entries name; the remote log never loses entries. Oracle (record with remote): diverged logs => refused and nothing changed; success => local log = agreed log ++ exactly one reference entry for the ref's current state (none if already recorded), remote log = local log, every newly published entry's ref is on the remote. Non-trivial: diverged logs with a local-only annotation or propagation entry, or an unrecorded local commit")
+	s.SetRule("rapid on real repositories (a bare remote and a local repository with it as 'origin'): a shared log prefix of 1-3 entries, local-only and remote-only suffixes of 0-4 entries each {reference entries on new commits, reference entries that record a ref's current state again, annotations (skip or not) naming shared or own-suffix entries, a revocation followed by a plain note on the same entry, propagation entries} over disjoint or overlapping refs, optionally an unrecorded extra local commit on some ref (local ahead / diverged), then ReconcileLocalRSLWithRemote, Sync, Sync with overwrite, or RecordRSLEntryForReference with the remote (sync, record, sync). Oracle (reconcile): conflict => refused and nothing changed; otherwise local log = remote log ++ the local-only entries in order with the same (kind, ref, target, upstream fields) and annotations naming the images of what they named; no ref other than the log moves. Oracle (sync): a refused sync changes nothing; a local ref moves only to the target of its latest unskipped remote entry, only if the remote recorded something new for it, and without overwrite only by fast-forward; a local log ahead is published together with the refs its unskipped entries name; the remote log never loses entries. Oracle (record with remote): diverged logs => refused and nothing changed; success => local log = agreed log ++ exactly one reference entry for the ref's current state (none if already recorded), remote log = local log, every newly published entry's ref is on the remote. Non-trivial: diverged logs with a local-only annotation or propagation entry, or an unrecorded local commit")
 	kit.Campaign(s, t, "reconcile-sync", "sync", s.Budget(96, 4_000), genC15, run)
 }
